@@ -657,6 +657,12 @@ func (e *Engine) evalBinary(env *Env, n *EBinary) (TV, error) {
 	if a.Sort == SString && n.Op == "+" {
 		return TV{App("str.++", SString, a, b), rt}, nil
 	}
+	if a.Sort == SReal || b.Sort == SReal {
+		// float64 operands: exact real arithmetic (the same abstraction the executor uses); see eval_ops.go
+		if tv, ok := e.realBinary(n.Op, a, b); ok {
+			return tv, nil
+		}
+	}
 	switch n.Op {
 	case "+":
 		return TV{Add(a, b), rt}, nil
@@ -1156,6 +1162,9 @@ func (e *Engine) evalCall(env *Env, n *ECall) (TV, error) {
 		return tv, err
 	}
 	if tv, handled, err := e.listSpec(env, n.Fun, n.Args); handled {
+		return tv, err
+	}
+	if tv, handled, err := e.opsSpec(env, n.Fun, n.Args); handled {
 		return tv, err
 	}
 	if n.Fun == "as" && len(n.Args) == 2 {
